@@ -14,14 +14,15 @@ Proof. rewrite concat_app. cbn [concat]. rewrite app_nil_r. reflexivity. Qed.
 Section P.
   Variable clamp : option nat.
   Variable cap : option nat.
+  Variable allow_empty : bool.
   Hypothesis clamp_pos : forall c, clamp = Some c -> 0 < c.
 
-  Lemma send1_ok s inp s' n : send1 clamp cap s inp = Ok (s', n) ->
+  Lemma send1_ok s inp s' n : inp <> [] -> send1 clamp cap allow_empty s inp = Ok (s', n) ->
     0 < n <= length inp /\
     s' = mk_dir (chan s ++ [firstn n inp]) (rbuf s) (S (sseq s)) (rseq s) /\
     (forall c, clamp = Some c -> n <= c) /\ (forall k, cap = Some k -> n <= k).
   Proof.
-    unfold send1. destruct inp as [|b inp']; [discriminate|].
+    intros Hne. unfold send1. destruct inp as [|b inp']; [congruence|]. clear Hne.
     set (inp := b :: inp'). assert (Hl : 0 < length inp) by (cbn; lia). clearbody inp.
     set (m := match clamp with Some c => Nat.min c (length inp) | None => length inp end).
     assert (Hm : 0 < m <= length inp /\ forall c, clamp = Some c -> m <= c).
@@ -35,11 +36,16 @@ Section P.
     - intros [= <- <-]. repeat split; try lia; auto. discriminate.
   Qed.
 
+  (* a send with datalen 0: refused, or one empty record and one sequence number *)
+  Lemma send1_empty s s' n : send1 clamp cap allow_empty s [] = Ok (s', n) ->
+    allow_empty = true /\ n = 0 /\ s' = mk_dir (chan s ++ [[]]) (rbuf s) (S (sseq s)) (rseq s).
+  Proof. unfold send1. destruct allow_empty; [|discriminate]. intros [= <- <-]. auto. Qed.
+
   Lemma write_all_S f s inp : inp <> [] ->
-    write_all clamp cap (S f) s inp =
-    match send1 clamp cap s inp with
+    write_all clamp cap allow_empty (S f) s inp =
+    match send1 clamp cap allow_empty s inp with
     | Ok (s', n) =>
-      match write_all clamp cap f s' (skipn n inp) with
+      match write_all clamp cap allow_empty f s' (skipn n inp) with
       | Ok (s'', ns) => Ok (s'', n :: ns)
       | Err => Err | Fault => Fault
       end
@@ -47,7 +53,7 @@ Section P.
     end.
   Proof. destruct inp; [congruence|reflexivity]. Qed.
 
-  Lemma write_all_ok fuel s inp s' ns : write_all clamp cap fuel s inp = Ok (s', ns) ->
+  Lemma write_all_ok fuel s inp s' ns : write_all clamp cap allow_empty fuel s inp = Ok (s', ns) ->
     pending s' = pending s ++ inp /\ rbuf s' = rbuf s /\
     sseq s' = sseq s + length ns /\ rseq s' = rseq s /\
     length (chan s') = length (chan s) + length ns /\
@@ -59,10 +65,10 @@ Section P.
     - destruct (list_eq_dec N.eq_dec inp []) as [->|Hne].
       { cbn [write_all]. intros [= <- <-]. unfold pending. rewrite app_nil_r. cbn. repeat split; try lia. constructor. }
       rewrite write_all_S by assumption.
-      destruct (send1 clamp cap s inp) as [[s1 n]| |] eqn:Es; try discriminate.
-      destruct (write_all clamp cap f s1 (skipn n inp)) as [[s2 ns']| |] eqn:Ew; try discriminate.
+      destruct (send1 clamp cap allow_empty s inp) as [[s1 n]| |] eqn:Es; try discriminate.
+      destruct (write_all clamp cap allow_empty f s1 (skipn n inp)) as [[s2 ns']| |] eqn:Ew; try discriminate.
       intros [= <- <-].
-      apply send1_ok in Es. destruct Es as (Hn & -> & Hc & _).
+      apply send1_ok in Es; [|assumption]. destruct Es as (Hn & -> & Hc & _).
       apply IH in Ew. destruct Ew as (Hp & Hr & Hs & Hq & Hcl & Hf).
       cbn [rbuf sseq rseq chan] in *. repeat split.
       + rewrite Hp. unfold pending. cbn [rbuf chan]. rewrite concat_snoc, <- !app_assoc, firstn_skipn. reflexivity.
@@ -88,24 +94,28 @@ Section P.
   (* stream fidelity: whatever has been written is, in order and unmodified, what has been
      read followed by what is still buffered / in flight *)
   Theorem stream_fidelity ops s s' reads recs :
-    run clamp cap ops s = Ok (s', reads, recs) ->
+    run clamp cap allow_empty ops s = Ok (s', reads, recs) ->
     pending s ++ written ops = concat reads ++ pending s'.
   Proof.
     revert s s' reads recs; induction ops as [|o ops IH]; intros s s' reads recs.
     - cbn [run]. intros [= <- <- <-]. cbn. rewrite app_nil_r. reflexivity.
-    - destruct o as [d|n]; cbn [run written].
-      + destruct (write_all clamp cap (length d) s d) as [[s1 ns]| |] eqn:Ew; try discriminate.
-        destruct (run clamp cap ops s1) as [[[s2 rd] rc]| |] eqn:Er; try discriminate.
+    - destruct o as [d|n|]; cbn [run written].
+      + destruct (write_all clamp cap allow_empty (length d) s d) as [[s1 ns]| |] eqn:Ew; try discriminate.
+        destruct (run clamp cap allow_empty ops s1) as [[[s2 rd] rc]| |] eqn:Er; try discriminate.
         intros [= <- <- <-]. apply write_all_ok in Ew. destruct Ew as (Hp & _).
         apply IH in Er. rewrite app_assoc, <- Hp. exact Er.
       + destruct (recv1 s n) as [[s1 d]| |] eqn:Ev; try discriminate.
-        destruct (run clamp cap ops s1) as [[[s2 rd] rc]| |] eqn:Er; try discriminate.
+        destruct (run clamp cap allow_empty ops s1) as [[[s2 rd] rc]| |] eqn:Er; try discriminate.
         intros [= <- <- <-]. apply recv1_ok in Ev. destruct Ev as (Hp & _).
         apply IH in Er. cbn [concat]. rewrite Hp, <- !app_assoc, Er. reflexivity.
+      + destruct (send1 clamp cap allow_empty s []) as [[s1 n]| |] eqn:Es; try discriminate.
+        destruct (run clamp cap allow_empty ops s1) as [[[s2 rd] rc]| |] eqn:Er; try discriminate.
+        intros [= <- <- <-]. apply send1_empty in Es. destruct Es as (_ & _ & ->).
+        apply IH in Er. rewrite <- Er. unfold pending. cbn [rbuf chan]. rewrite concat_snoc, app_nil_r. reflexivity.
   Qed.
 
   Corollary stream_fidelity_drained ops s' reads recs :
-    run clamp cap ops dir_init = Ok (s', reads, recs) -> pending s' = [] ->
+    run clamp cap allow_empty ops dir_init = Ok (s', reads, recs) -> pending s' = [] ->
     concat reads = written ops.
   Proof.
     intros H Hp. apply stream_fidelity in H. rewrite Hp, app_nil_r in H. cbn in H. symmetry. exact H.
@@ -113,49 +123,72 @@ Section P.
 
   (* one sequence number per record on each side, never out of step *)
   Theorem seq_lockstep ops s s' reads recs :
-    run clamp cap ops s = Ok (s', reads, recs) -> lockstep s -> lockstep s'.
+    run clamp cap allow_empty ops s = Ok (s', reads, recs) -> lockstep s -> lockstep s'.
   Proof.
     revert s s' reads recs; induction ops as [|o ops IH]; intros s s' reads recs.
     - cbn [run]. intros [= <- <- <-]. auto.
-    - destruct o as [d|n]; cbn [run].
-      + destruct (write_all clamp cap (length d) s d) as [[s1 ns]| |] eqn:Ew; try discriminate.
-        destruct (run clamp cap ops s1) as [[[s2 rd] rc]| |] eqn:Er; try discriminate.
+    - destruct o as [d|n|]; cbn [run].
+      + destruct (write_all clamp cap allow_empty (length d) s d) as [[s1 ns]| |] eqn:Ew; try discriminate.
+        destruct (run clamp cap allow_empty ops s1) as [[[s2 rd] rc]| |] eqn:Er; try discriminate.
         intros [= <- <- <-] Hl. apply write_all_ok in Ew. destruct Ew as (_ & _ & Hs & Hq & Hc & _).
         eapply IH; [exact Er|]. unfold lockstep in *. lia.
       + destruct (recv1 s n) as [[s1 d]| |] eqn:Ev; try discriminate.
-        destruct (run clamp cap ops s1) as [[[s2 rd] rc]| |] eqn:Er; try discriminate.
+        destruct (run clamp cap allow_empty ops s1) as [[[s2 rd] rc]| |] eqn:Er; try discriminate.
         intros [= <- <- <-] Hl. apply recv1_ok in Ev. destruct Ev as (_ & _ & Hk).
         eapply IH; [exact Er|auto].
+      + destruct (send1 clamp cap allow_empty s []) as [[s1 n]| |] eqn:Es; try discriminate.
+        destruct (run clamp cap allow_empty ops s1) as [[[s2 rd] rc]| |] eqn:Er; try discriminate.
+        intros [= <- <- <-] Hl. apply send1_empty in Es. destruct Es as (_ & _ & ->).
+        eapply IH; [exact Er|]. unfold lockstep in *. cbn [sseq rseq chan]. rewrite app_length. cbn [length]. lia.
   Qed.
 
   (* every record a Write produced is non-empty and respects the clamp *)
   Theorem record_sizes ops s s' reads recs :
-    run clamp cap ops s = Ok (s', reads, recs) ->
-    Forall (Forall (fun n => 0 < n /\ (forall c, clamp = Some c -> n <= c))) recs.
+    run clamp cap allow_empty ops s = Ok (s', reads, recs) ->
+    Forall (Forall (fun n => (n = 0 -> allow_empty = true) /\ (forall c, clamp = Some c -> n <= c))) recs.
   Proof.
     revert s s' reads recs; induction ops as [|o ops IH]; intros s s' reads recs.
     - cbn [run]. intros [= <- <- <-]. constructor.
-    - destruct o as [d|n]; cbn [run].
-      + destruct (write_all clamp cap (length d) s d) as [[s1 ns]| |] eqn:Ew; try discriminate.
-        destruct (run clamp cap ops s1) as [[[s2 rd] rc]| |] eqn:Er; try discriminate.
+    - destruct o as [d|n|]; cbn [run].
+      + destruct (write_all clamp cap allow_empty (length d) s d) as [[s1 ns]| |] eqn:Ew; try discriminate.
+        destruct (run clamp cap allow_empty ops s1) as [[[s2 rd] rc]| |] eqn:Er; try discriminate.
         intros [= <- <- <-]. apply write_all_ok in Ew. destruct Ew as (_ & _ & _ & _ & _ & Hf).
-        constructor; [assumption|eapply IH; eassumption].
+        constructor; [|eapply IH; eassumption].
+        eapply Forall_impl; [|exact Hf]. intros n [Hn Hc]. split; [lia|assumption].
       + destruct (recv1 s n) as [[s1 d]| |] eqn:Ev; try discriminate.
-        destruct (run clamp cap ops s1) as [[[s2 rd] rc]| |] eqn:Er; try discriminate.
+        destruct (run clamp cap allow_empty ops s1) as [[[s2 rd] rc]| |] eqn:Er; try discriminate.
         intros [= <- <- <-]. eapply IH; eassumption.
+      + destruct (send1 clamp cap allow_empty s []) as [[s1 n]| |] eqn:Es; try discriminate.
+        destruct (run clamp cap allow_empty ops s1) as [[[s2 rd] rc]| |] eqn:Er; try discriminate.
+        intros [= <- <- <-]. apply send1_empty in Es. destruct Es as (Ha & -> & _).
+        constructor; [|eapply IH; eassumption].
+        constructor; [|constructor]. split; [auto|intros; lia].
+  Qed.
+
+  (* an empty record is a record like any other: sending it and receiving it advances the
+     sequence number on both sides by one and delivers zero bytes *)
+  Theorem empty_record_consumes_seq s s1 n s2 d outlen :
+    chan s = [] -> rbuf s = [] ->
+    send1 clamp cap allow_empty s [] = Ok (s1, n) -> recv1 s1 outlen = Ok (s2, d) ->
+    n = 0 /\ d = [] /\ sseq s2 = S (sseq s) /\ rseq s2 = S (rseq s) /\ chan s2 = [] /\ rbuf s2 = [].
+  Proof.
+    intros Hc Hr Hs Hv. apply send1_empty in Hs. destruct Hs as (_ & -> & ->).
+    unfold recv1 in Hv. cbn [rbuf chan sseq rseq] in Hv. rewrite Hr, Hc in Hv. cbn [app] in Hv.
+    destruct (outlen =? 0); [discriminate|]. injection Hv as <- <-.
+    cbn [sseq rseq chan rbuf]. rewrite firstn_nil, skipn_nil. repeat split; reflexivity.
   Qed.
 
   (* without a capacity limit (tls_send: the clamp keeps every record inside conn->record)
      a write of any size succeeds *)
   Lemma write_all_total fuel s inp : cap = None -> length inp <= fuel ->
-    exists s' ns, write_all clamp cap fuel s inp = Ok (s', ns).
+    exists s' ns, write_all clamp cap allow_empty fuel s inp = Ok (s', ns).
   Proof.
     intros Hc. revert s inp; induction fuel as [|f IH]; intros s inp Hl.
     - destruct inp; [|cbn in Hl; lia]. cbn. eauto.
     - destruct (list_eq_dec N.eq_dec inp []) as [->|Hne]; [cbn; eauto|].
       rewrite write_all_S by assumption.
-      destruct (send1 clamp cap s inp) as [[s1 n]| |] eqn:Es.
-      + pose proof (send1_ok _ _ _ _ Es) as (Hn & _).
+      destruct (send1 clamp cap allow_empty s inp) as [[s1 n]| |] eqn:Es.
+      + pose proof (send1_ok _ _ _ _ Hne Es) as (Hn & _).
         destruct (IH s1 (skipn n inp)) as (s2 & ns & Hw); [rewrite skipn_length; lia|].
         rewrite Hw. eauto.
       + exfalso. unfold send1 in Es. rewrite Hc in Es. destruct inp; [congruence|discriminate].
@@ -171,11 +204,11 @@ Proof. discriminate. Qed.
 
 Theorem stream12_fidelity ops s' reads recs :
   run12 ops dir_init = Ok (s', reads, recs) -> written ops = concat reads ++ pending s'.
-Proof. intros H. apply (stream_fidelity _ _ clamp12_pos) in H. exact H. Qed.
+Proof. intros H. apply (stream_fidelity _ _ _ clamp12_pos) in H. exact H. Qed.
 
 Theorem stream13_fidelity ops s' reads recs :
   run13 ops dir_init = Ok (s', reads, recs) -> written ops = concat reads ++ pending s'.
-Proof. intros H. apply (stream_fidelity _ _ clamp12_pos) in H. exact H. Qed.
+Proof. intros H. apply (stream_fidelity _ _ _ clamp12_pos) in H. exact H. Qed.
 
 (* TLCP / TLS 1.2: a script never faults, and fails only at a Read (empty buffer size or no
    record available) -- never at a Write, whatever its size *)
@@ -185,7 +218,7 @@ Proof.
   revert s; induction ops as [|o ops IH]; intros s Hw.
   - cbn. eauto.
   - destruct (Hw o (or_introl eq_refl)) as [d ->]. unfold run12 in *. cbn [run].
-    destruct (write_all_total (Some max_plain) None clamp12_pos (length d) s d eq_refl (le_n _)) as (s1 & ns & Hok).
+    destruct (write_all_total (Some max_plain) None false clamp12_pos (length d) s d eq_refl (le_n _)) as (s1 & ns & Hok).
     rewrite Hok. destruct (IH s1) as (s2 & recs & Hr); [intros; apply Hw; right; assumption|].
     rewrite Hr. eauto.
 Qed.
@@ -193,19 +226,42 @@ Qed.
 Theorem stream12_record_sizes ops s s' reads recs :
   run12 ops s = Ok (s', reads, recs) -> Forall (Forall (fun n => 0 < n <= max_plain)) recs.
 Proof.
-  intros H. apply (record_sizes _ _ clamp12_pos) in H.
+  intros H. apply (record_sizes _ _ _ clamp12_pos) in H.
   eapply Forall_impl; [|exact H]. intros l Hl. eapply Forall_impl; [|exact Hl].
-  intros n [Hn Hc]. split; [assumption|]. apply Hc. reflexivity.
+  intros n [Hn Hc]. split; [|apply Hc; reflexivity].
+  destruct n; [specialize (Hn eq_refl); discriminate|lia].
 Qed.
 
-(* TLS 1.3 (tls13_send with the clamp of commit c5b289c): the same two facts *)
+(* TLS 1.3 (tls13_send with the clamp of commit c5b289c): writes of any size succeed; records are
+   at most 2^14 bytes, and empty only when the application sent an empty buffer *)
 Theorem stream13_writes_total ops s : (forall o, In o ops -> exists d, o = Write d) ->
   exists s' recs, run13 ops s = Ok (s', [], recs).
-Proof. exact (stream12_writes_total ops s). Qed.
+Proof.
+  revert s; induction ops as [|o ops IH]; intros s Hw.
+  - cbn. eauto.
+  - destruct (Hw o (or_introl eq_refl)) as [d ->]. unfold run13 in *. cbn [run].
+    destruct (write_all_total (Some max_plain) None true clamp12_pos (length d) s d eq_refl (le_n _)) as (s1 & ns & Hok).
+    rewrite Hok. destruct (IH s1) as (s2 & recs & Hr); [intros; apply Hw; right; assumption|].
+    rewrite Hr. eauto.
+Qed.
 
 Theorem stream13_record_sizes ops s s' reads recs :
-  run13 ops s = Ok (s', reads, recs) -> Forall (Forall (fun n => 0 < n <= max_plain)) recs.
-Proof. exact (stream12_record_sizes ops s s' reads recs). Qed.
+  run13 ops s = Ok (s', reads, recs) -> Forall (Forall (fun n => n <= max_plain)) recs.
+Proof.
+  intros H. apply (record_sizes _ _ _ clamp12_pos) in H.
+  eapply Forall_impl; [|exact H]. intros l Hl. eapply Forall_impl; [|exact Hl].
+  intros n [_ Hc]. apply Hc; reflexivity.
+Qed.
+
+(* an empty TLS 1.3 application record (tls13_send with datalen 0) consumes one sequence number
+   on each side and delivers nothing; tls_send refuses datalen 0 *)
+Theorem stream13_empty_record s s1 n s2 d outlen :
+  chan s = [] -> rbuf s = [] ->
+  send1 (Some max_plain) None true s [] = Ok (s1, n) -> recv1 s1 outlen = Ok (s2, d) ->
+  n = 0 /\ d = [] /\ sseq s2 = S (sseq s) /\ rseq s2 = S (rseq s) /\ chan s2 = [] /\ rbuf s2 = [].
+Proof. apply empty_record_consumes_seq. Qed.
+Theorem stream12_empty_send_refused s : send1 (Some max_plain) None false s [] = Err.
+Proof. reflexivity. Qed.
 
 (* for the record: tls13_send before c5b289c had no clamp; a write larger than 18415 bytes ran
    over conn->record (DESIGN section 5 #22) *)
@@ -214,9 +270,9 @@ Example stream13_oversize_write_faulted_before_fix d r s :
 Proof.
   intros H. unfold run13_before_c5b289c. cbn [run].
   assert (Hne : d <> []) by (destruct d; [cbn in H; lia|discriminate]).
-  assert (Hw : write_all None (Some cap13) (length d) s d = Fault).
+  assert (Hw : write_all None (Some cap13) true (length d) s d = Fault).
   { destruct (length d) as [|f] eqn:El; [lia|].
-    rewrite (write_all_S None (Some cap13) f s d Hne).
+    rewrite (write_all_S None (Some cap13) true f s d Hne).
     unfold send1. destruct d as [|b d']; [congruence|]. rewrite El.
     replace (cap13 <? S f) with true by (symmetry; apply Nat.ltb_lt; lia). reflexivity. }
   rewrite Hw. reflexivity.
